@@ -57,8 +57,15 @@ fn main() {
         std::process::exit(2)
     };
 
-    if std::env::var_os("VERIF_DEBUG").is_none() {
-        std::panic::set_hook(Box::new(|_| {}));
+    {
+        let debug = std::env::var_os("VERIF_DEBUG").is_some();
+        std::panic::set_hook(Box::new(move |info| {
+            let loc = info.location().map(|l| format!("{}:{}", l.file().rsplit("/crates/").next().unwrap_or(l.file()), l.line())).unwrap_or_default();
+            svc::LAST_PANIC_LOCATION.with(|c| *c.borrow_mut() = loc.clone());
+            if debug {
+                eprintln!("panic at {loc}: {info}");
+            }
+        }));
     }
     if let Err(e) = sigref::self_validate() {
         machinery_failure(&format!("reference signer failed its documentation vectors: {e}"));
